@@ -509,6 +509,87 @@ Section Steps.
     - eapply same_maps_wfp; [|exact Hw]. apply do_deliver_spec.
   Qed.
 
+  (** ** classification of the transitions *)
+  Definition reason_ok (o : op) (d : drop) : Prop :=
+    match d_rsn d with
+    | Invalidated => removes o (d_key d) = true
+    | _ => is_maint o = true
+    end.
+
+  Inductive kind (s : state) (o : op) (s' : state) : Prop :=
+  | K_write k e dcc :
+      ueff s s' (shard_of c k) (aput k e (smap s (shard_of c k))) dcc 1 ->
+      e_id e = st_eid P s -> silent o k = true -> kind s o s'
+  | K_refr : refr s s' -> kind s o s'
+  | K_aset k e e' :
+      find s k = Some e -> ueff s s' (shard_of c k) (aset k e' (smap s (shard_of c k))) 0 0 ->
+      e_id e' = e_id e -> e_cost e' = e_cost e -> kind s o s'
+  | K_mstep D dcc : mstepx s s' D dcc -> Forall (reason_ok o) D -> kind s o s'
+  | K_clear : o = OClear -> s' = do_clear P c s -> kind s o s'
+  | K_multi items : o = OMultiInsert items -> s' = do_multi_insert P c s items -> kind s o s'
+  | K_same :
+      (forall j, smap s' j = smap s j) -> st_eid P s' = st_eid P s -> sent s' = sent s ->
+      st_ndrops P s' = st_ndrops P s -> st_cc P s' = st_cc P s -> kind s o s'.
+
+  Lemma step_kind s o : wfp s -> kind s o (fst (step P c s o)).
+  Proof.
+    intros Hw.
+    assert (Hread : forall hit k, kind s o (fst (do_read P c hit s k))).
+    { intros hit k. pose proof (do_read_spec hit s k) as H.
+      destruct (find s k) as [e|]; [destruct (expired c (st_now P s) e)|]; try (rewrite H; apply K_refr, refr_refl).
+      apply K_refr. apply H. }
+    assert (Hcomp : forall k f, kind s o (fst (do_compute P c s k f))).
+    { intros k f. pose proof (do_compute_ueff P c s k f) as H. cbn zeta in H.
+      destruct (computable P c s k) as [e|]; [|rewrite H; apply K_refr, refr_refl].
+      destruct H as [H [_ Hf]]. eapply K_aset; [exact Hf | exact H | reflexivity | reflexivity]. }
+    assert (Hsame : kind s o s) by (apply K_refr, refr_refl).
+    destruct o; cbn [step fst].
+    - destruct (do_insert_ueff s k v c0) as [h H]. cbn zeta in H.
+      eapply K_write; [exact H | reflexivity | cbn; apply N.eqb_refl].
+    - destruct (do_insert_ttl_ueff s k v c0 d) as [h H]. cbn zeta in H.
+      eapply K_write; [exact H | reflexivity | cbn; apply N.eqb_refl].
+    - specialize (Hread true k). destruct (do_read P c true s k). exact Hread.
+    - specialize (Hread true k). destruct (do_read P c true s k). exact Hread.
+    - specialize (Hread false k). destruct (do_read P c false s k). exact Hread.
+    - unfold do_or_insert. destruct (occupied P c s k); cbn [fst]; [exact Hsame|].
+      eapply K_write; [apply vacant_insert_ueff' | reflexivity | cbn; apply N.eqb_refl].
+    - exact Hsame.
+    - specialize (Hcomp k f). destruct (do_compute P c s k f). exact Hcomp.
+    - specialize (Hcomp k f). destruct (do_compute P c s k f). exact Hcomp.
+    - pose proof (do_remove_mstepx P c s k Hn) as H. destruct (find s k) as [e|]; [|rewrite H; exact Hsame].
+      destruct (do_remove P c s k) as [s' r]. cbn [fst snd] in *. destruct H as [H _].
+      eapply K_mstep; [exact H|]. constructor; [|constructor]. unfold reason_ok. cbn. apply N.eqb_refl.
+    - pose proof (do_remove_mstepx P c s k Hn) as H. destruct (find s k) as [e|]; [|rewrite H; exact Hsame].
+      destruct (do_remove P c s k) as [s' r]. cbn [fst snd] in *. destruct H as [H _].
+      eapply K_mstep; [exact H|]. constructor; [|constructor]. unfold reason_ok. cbn. apply N.eqb_refl.
+    - apply K_clear; reflexivity.
+    - destruct (do_multiget_gen P (do_read P c true) s ks []) as [s' l] eqn:E. cbn [fst].
+      apply K_refr. eapply (multiget_gen_spec _ (do_read_rd_ok true)). exact E.
+    - destruct (do_multiget_gen P (do_read_direct P c) s ks []) as [s' l] eqn:E. cbn [fst].
+      apply K_refr. eapply (multiget_gen_spec _ do_read_direct_rd_ok). exact E.
+    - eapply K_multi; reflexivity.
+    - destruct (do_multi_remove P c s ks []) as [s' l] eqn:E. cbn [fst].
+      destruct (do_multi_remove_spec ks s [] s' l E) as [D [dcc [H [_ [Hi [Hk _]]]]]].
+      eapply K_mstep; [exact H|]. unfold inval_of in Hi. rewrite Forall_forall in *. intros d Hd.
+      unfold reason_ok. rewrite (proj1 (Hi d Hd)). cbn. apply mem_In. apply Hk. exact Hd.
+    - destruct (do_multi_remove P c s ks []) as [s' l] eqn:E. cbn [fst].
+      destruct (do_multi_remove_spec ks s [] s' l E) as [D [dcc [H [_ [Hi [Hk _]]]]]].
+      eapply K_mstep; [exact H|]. unfold inval_of in Hi. rewrite Forall_forall in *. intros d Hd.
+      unfold reason_ok. rewrite (proj1 (Hi d Hd)). cbn. apply mem_In. apply Hk. exact Hd.
+    - destruct (run_maintenance_mstepx P c ord s Hw) as [D [dcc [H Hni]]].
+      eapply K_mstep; [exact H|]. eapply Forall_impl; [|exact Hni]. intros d Hd. unfold reason_ok, not_inval in *.
+      destruct (d_rsn d); [reflexivity | reflexivity | contradiction].
+    - destruct (janitor_tick_mstepx P c i ord s Hw) as [D [dcc [H Hni]]].
+      eapply K_mstep; [exact H|]. eapply Forall_impl; [|exact Hni]. intros d Hd. unfold reason_ok, not_inval in *.
+      destruct (d_rsn d); [reflexivity | reflexivity | contradiction].
+    - destruct (janitor_signal_mstepx P c i ord s Hw) as [D [dcc [H Hni]]].
+      eapply K_mstep; [exact H|]. eapply Forall_impl; [|exact Hni]. intros d Hd. unfold reason_ok, not_inval in *.
+      destruct (d_rsn d); [reflexivity | reflexivity | contradiction].
+    - apply K_same; reflexivity.
+    - destruct (flush_intro_spec s) as [M [C [N [E [S D]]]]]. apply K_same; assumption.
+    - destruct (do_deliver_spec s n) as [M [C [N [E [S D]]]]]. apply K_same; assumption.
+  Qed.
+
   Lemma run_wfp ops : forall s, wfp s -> wfp (fst (run P c s ops)).
   Proof.
     induction ops as [|o t IH]; intros s Hw; cbn [run fst]; [exact Hw|].
